@@ -4,3 +4,5 @@ INVARIANT Closed
 INVARIANT FaithfulMaps
 INVARIANT ExactUndo
 INVARIANT InverseMaps
+INVARIANT StructureFlagLaw
+INVARIANT Reinsert
